@@ -85,18 +85,119 @@ def all_nav_commands():
     return gen_hostile.nav_commands()
 
 
+def ragged_table(rng):
+    """a table whose rows have different numbers of cells (legal MathML): cell-wise movement has to cope with missing neighbours"""
+    rows = []
+    for _ in range(rng.randint(2, 4)):
+        cells = [gen.N("mtd", [rng.choice([gen.mi(rng.choice("abcxyz")), gen.mn(str(rng.randint(1, 99))), gen.mrow(gen.mi("x"), gen.mo("+"), gen.mn("1"))])]) for _ in range(rng.randint(1, 4))]
+        rows.append(gen.N("mtr", cells))
+    t = gen.N("mtable", rows)
+    k = rng.random()
+    if k < 0.4:
+        return gen.math(gen.mrow(gen.mo("("), t, gen.mo(")")))
+    if k < 0.7:
+        return gen.math(gen.mi("A"), gen.mo("="), t)
+    return gen.math(t)
+
+
+def make_steps(rng, every, n_lo=2, n_hi=14):
+    steps = []
+    for _ in range(rng.randint(n_lo, n_hi)):
+        k = rng.random()
+        if k < 0.40:
+            steps.append(["nav", rng.choice(NAV)])
+        elif k < 0.70:
+            steps.append(["nav", rng.choice(every)])
+        elif k < 0.78:
+            steps.append(["nav", rng.choice(["MoveCellDown", "MoveCellUp", "MoveCellNext", "MoveCellPrevious", "MoveColumnStart", "MoveColumnEnd", "SetPlacemarker2", "MoveTo2", "SetPlacemarker3", "MoveTo3"])])
+        elif k < 0.93:
+            steps.append(["node", rng.random(), rng.choice([0, 0, 1, 1, 2, 3])])
+        else:
+            steps.append(["key", rng.choice([13, 32, 37, 38, 39, 40, 35, 36, 48, 49, 50, 51, 57]), rng.random() < 0.3, rng.random() < 0.3, rng.random() < 0.2, False])
+    return steps
+
+
+def handout_round(sess, mathml, steps, positions, st):
+    """one set_mathml + walk; returns (problem or None, judged?)"""
+    r0 = sess.call("set_mathml", mathml, timeout=30)
+    if r0 is None or r0["r"] != "ok":
+        return None, False
+    try:
+        root = ET.fromstring(r0["v"])
+    except ET.ParseError:
+        return None, False
+    id_list = [e.get("id") for e in root.iter() if e.get("id") is not None]
+    ids = set(id_list)
+    # leaves with more than one character are the places where an offset is meaningful
+    multi = [e.get("id") for e in root.iter() if len(e) == 0 and len((e.text or "").strip()) > 1 and e.get("id")]
+    ops = [("get_spoken_text",), ("get_navigation_mathml_id",)]
+    for stp in steps:
+        if stp[0] == "nav":
+            ops.append(("do_navigate_command", stp[1]))
+        elif stp[0] == "node":
+            pool = multi if (multi and stp[2] > 0) else id_list
+            if not pool:
+                continue
+            ops.append(("set_navigation_node", pool[int(stp[1] * len(pool)) % len(pool)], stp[2]))
+        else:
+            ops.append(("do_navigate_keypress",) + tuple(stp[1:]))
+        ops.append(("get_navigation_mathml_id",))
+        ops.append(("get_navigation_mathml",))
+    ops.append(("get_braille", ""))
+    for p in positions:
+        ops.append(("get_navigation_node_from_braille_position", p))
+    res = sess.batch(ops, timeout=60)
+    if res is None:
+        return None, False
+    bad = None
+    if res[0]["r"] == "ok":
+        marks = marks_of(res[0]["v"])
+        st.count("bookmark_ids_checked", len(marks))
+        for m in marks:
+            if m not in ids:
+                bad = ("bookmark-id-unknown", "speech bookmark names id %r which is not in the returned MathML" % m)
+                break
+    last = None
+    for (op, r) in zip(ops[1:], res[1:]):
+        if bad:
+            break
+        if op[0] in ("do_navigate_command", "set_navigation_node", "do_navigate_keypress"):
+            last = op
+            st.count("steps_" + op[0] + "_" + r["r"])
+            if op[0] == "set_navigation_node" and op[2] > 0 and r["r"] == "ok":
+                st.count("positions_inside_a_leaf")
+        if op[0] in ("get_navigation_mathml_id", "get_navigation_node_from_braille_position") and r["r"] == "ok":
+            st.count("handed_out_ids_checked")
+            if r["v"][0] not in ids:
+                bad = ("%s-id-unknown" % ("navigation" if op[0] == "get_navigation_mathml_id" else "braille-position"),
+                       "%s returned id %r (offset %r) which is not in the returned MathML, after %s" % (op[0], r["v"][0], r["v"][1] if len(r["v"]) > 1 else None, str(last)[:120]))
+        if op[0] == "get_navigation_mathml" and r["r"] == "ok":
+            m = re.search(r"""\sid=['"]([^'"]*)['"]""", r["v"][0])
+            if m:
+                import html
+                st.count("navigation_mathml_roots_checked")
+                if html.unescape(m.group(1)) not in ids:
+                    bad = ("navigation-mathml-id-unknown", "get_navigation_mathml returned a tree whose root id %r is not in the returned MathML, after %s" % (m.group(1), str(last)[:120]))
+    return bad, True
+
+
 def handout_phase(spec):
-    """ids handed out after set_mathml belong to the returned MathML.  Walks mix every navigation command the library knows (place markers that
-    were never set, last-location, toggles), positions put inside multi-character leaves with set_navigation_node(id, offset) and key presses."""
+    """ids handed out after set_mathml belong to the MathML returned by the LAST set_mathml.  Walks mix every navigation command the library knows
+    (place markers that were never set, last-location, toggles, cell movement in ragged tables), positions put inside multi-character leaves with
+    set_navigation_node(id, offset) and key presses; in half of the sessions the expression is then set again (the very same string, or another
+    one) and the walk continues -- place markers, the position stack and caches of the first round must not hand out ids of the old tree."""
     st = core.Stats()
     rng = random.Random(spec["seed"])
     deadline = time.time() + spec["time_budget"]
     cases = list(spec.get("fixed", []))
     codes = ["Nemeth", "UEB", "CMU"]
     every = all_nav_commands()
-    for _ in range(spec["n"]):
-        tb = gen.Textbook(rng, max_depth=rng.choice([2, 3]), p_ident=0.5)
-        tree = tb.expression()[0]
+
+    def expression():
+        if rng.random() < 0.2:
+            tree = ragged_table(rng)
+        else:
+            tree = gen.Textbook(rng, max_depth=rng.choice([2, 3]), p_ident=0.5).expression()[0]
         if rng.random() < 0.5:
             k = 0
             special = rng.random() < 0.5
@@ -106,90 +207,34 @@ def handout_phase(spec):
                     n.attrs["id"] = "au%d" % k
                     if special and rng.random() < 0.4:
                         n.attrs["id"] = rng.choice(["x'%d", 'q"%d', "l<%d", "g>%d", "a&%d", "s p%d", "é%d", "x'\"<&>%d"]) % k
-        steps = []
-        for _ in range(rng.randint(2, 14)):
-            k = rng.random()
-            if k < 0.45:
-                steps.append(["nav", rng.choice(NAV)])
-            elif k < 0.75:
-                steps.append(["nav", rng.choice(every)])
-            elif k < 0.93:
-                steps.append(["node", rng.random(), rng.choice([0, 0, 1, 1, 2, 3])])
-            else:
-                steps.append(["key", rng.choice([13, 32, 37, 38, 39, 40, 35, 36, 48, 49, 57]), rng.random() < 0.3, rng.random() < 0.3, rng.random() < 0.2, False])
-        cases.append({"phase": "handout", "mathml": tree.xml(), "tts": rng.choice(["SSML", "SAPI5"]), "code": rng.choice(codes), "nav_mode": rng.choice(NAV_MODES),
-                      "steps": steps, "positions": [rng.randint(0, 40) for _ in range(4)]})
+        return tree.xml()
+    for _ in range(spec["n"]):
+        case = {"phase": "handout", "mathml": expression(), "tts": rng.choice(["SSML", "SAPI5"]), "code": rng.choice(codes), "nav_mode": rng.choice(NAV_MODES),
+                "steps": make_steps(rng, every), "positions": [rng.randint(0, 40) for _ in range(4)]}
+        if rng.random() < 0.5:
+            case["again"] = {"mathml": case["mathml"] if rng.random() < 0.7 else expression(), "steps": make_steps(rng, every, 1, 8)}
+        cases.append(case)
     for case in cases:
         if time.time() > deadline:
             break
+        steps = case.get("steps")
+        if steps is None:        # witness format of earlier versions
+            steps = [["nav", c] for c in case.get("commands", [])]
         with core.Session({"TTS": case["tts"], "Bookmark": "true", "BrailleCode": case["code"], "NavMode": case.get("nav_mode", "Enhanced")}) as sess:
-            r0 = sess.call("set_mathml", case["mathml"], timeout=30)
-            if r0 is None or r0["r"] != "ok":
-                continue
-            try:
-                root = ET.fromstring(r0["v"])
-            except ET.ParseError:
-                continue
-            id_list = [e.get("id") for e in root.iter() if e.get("id") is not None]
-            ids = set(id_list)
-            # leaves with more than one character are the places where an offset is meaningful
-            multi = [e.get("id") for e in root.iter() if len(e) == 0 and len((e.text or "").strip()) > 1 and e.get("id")]
-            ops = [("get_spoken_text",), ("get_navigation_mathml_id",)]
-            steps = case.get("steps")
-            if steps is None:        # witness format of earlier versions
-                steps = [["nav", c] for c in case.get("commands", [])]
-            for stp in steps:
-                if stp[0] == "nav":
-                    ops.append(("do_navigate_command", stp[1]))
-                elif stp[0] == "node":
-                    pool = multi if (multi and stp[2] > 0) else id_list
-                    if not pool:
-                        continue
-                    ops.append(("set_navigation_node", pool[int(stp[1] * len(pool)) % len(pool)], stp[2]))
-                else:
-                    ops.append(("do_navigate_keypress",) + tuple(stp[1:]))
-                ops.append(("get_navigation_mathml_id",))
-                ops.append(("get_navigation_mathml",))
-            ops.append(("get_braille", ""))
-            for p in case["positions"]:
-                ops.append(("get_navigation_node_from_braille_position", p))
-            res = sess.batch(ops, timeout=60)
-            if res is None:
+            bad, judged = handout_round(sess, case["mathml"], steps, case["positions"], st)
+            if not judged:
                 continue
             st.evaluations += 1
-            bad = None
-            if res[0]["r"] == "ok":
-                marks = marks_of(res[0]["v"])
-                st.count("bookmark_ids_checked", len(marks))
-                for m in marks:
-                    if m not in ids:
-                        bad = ("bookmark-id-unknown", "speech bookmark names id %r which is not in the returned MathML" % m)
-                        break
-            last = None
-            for (op, r) in zip(ops[1:], res[1:]):
+            if not bad and case.get("again"):
+                bad, judged2 = handout_round(sess, case["again"]["mathml"], case["again"]["steps"], case["positions"], st)
+                if judged2:
+                    st.count("second_rounds_same_string" if case["again"]["mathml"] == case["mathml"] else "second_rounds_other_string")
                 if bad:
-                    break
-                if op[0] in ("do_navigate_command", "set_navigation_node", "do_navigate_keypress"):
-                    last = op
-                    st.count("steps_" + op[0] + "_" + r["r"])
-                    if op[0] == "set_navigation_node" and op[2] > 0 and r["r"] == "ok":
-                        st.count("positions_inside_a_leaf")
-                if op[0] in ("get_navigation_mathml_id", "get_navigation_node_from_braille_position") and r["r"] == "ok":
-                    st.count("handed_out_ids_checked")
-                    if r["v"][0] not in ids:
-                        bad = ("%s-id-unknown" % ("navigation" if op[0] == "get_navigation_mathml_id" else "braille-position"),
-                               "%s returned id %r (offset %r) which is not in the returned MathML, after %s" % (op[0], r["v"][0], r["v"][1] if len(r["v"]) > 1 else None, str(last)[:120]))
-                if op[0] == "get_navigation_mathml" and r["r"] == "ok":
-                    m = re.search(r"""\sid=['"]([^'"]*)['"]""", r["v"][0])
-                    if m:
-                        import html
-                        st.count("navigation_mathml_roots_checked")
-                        if html.unescape(m.group(1)) not in ids:
-                            bad = ("navigation-mathml-id-unknown", "get_navigation_mathml returned a tree whose root id %r is not in the returned MathML, after %s" % (m.group(1), str(last)[:120]))
+                    bad = (bad[0], "after the expression was set again (%s): %s" % ("the same string" if case["again"]["mathml"] == case["mathml"] else "another string", bad[1]))
             if bad:
                 st.violations.append(core.violation(bad[0], bad[0], case, bad[1] + " | " + case["mathml"][:300]))
             else:
-                st.nontrivial.add(core.h16(case["mathml"] + repr(steps)))
+                st.nontrivial.add(core.h16(case["mathml"] + repr(steps) + repr(case.get("again"))))
     return st.to_dict()
 
 
